@@ -451,6 +451,7 @@ def rule_hash(chk, reach):
     chk.floor("C07.floor/hash-sites", n_sites, 13, "hash-order exposure sites in the workspace")
     chk.note("hash site classes: %s" % dict(sorted(classes.items())))
     rule_sort_keys(chk)
+    rule_models_order(chk)
 
 
 def collected_then_sorted(b, node):
@@ -525,3 +526,45 @@ def rule_sort_keys(chk):
                     ok = bool(cmpc) and all(pos0(a) for a in cmpc[0]["args"][:2])
                     detail = "comparator compares the map key (tuple position 0) of both elements" if ok else "comparator does not compare the unique map key"
             chk.ob(key, ok, detail if ok else "`%s` in %s: %s" % (recv, fn_name, detail), where(b, c))
+
+
+def rule_models_order(chk):
+    """Two passes that walk hash containers are small enough to be evaluated on model modules (finite-map reader with
+    modelled HashMap / HashSet): NameMap::build and Module::assign_api_bindings give the same result when every hash
+    container is iterated forwards and backwards."""
+    f = chk.facts
+    try:
+        import namemodel as NM
+        import interp as I
+        m = NM.NameModel(f)
+        spec = dict(namespaces=[("N", None), ("M", None), ("K", 0)], structs=[("f", 2), ("half", None)], enums=[("E", 1)], globals=[("v", None), ("v", 0), ("v", 1), ("float", 2)],
+                    functions=[("f", 0, "plain"), ("f", 0, "plain"), ("f", 1, "plain"), ("f", 1, "plain"), ("f", 1, "plain"), ("f_0", 1, "plain"), ("g", None, "plain"), ("g", None, "plain")],
+                    locals=["f_0", "f_2", "v", "g_1", "half"])
+        r1, r2 = m.run(spec, ["half", "float"], reverse=False), m.run(spec, ["half", "float"], reverse=True)
+        if isinstance(r1, tuple) or isinstance(r2, tuple):
+            bad = r1 if isinstance(r1, tuple) else r2
+            if bad[0] == "unreadable":
+                chk.note("NameMap::build model not readable: %s" % bad[1][:80])
+            else:
+                chk.ob("C07.model/NameMap::build", False, "NameMap::build %s on the model module (%s)" % (bad[0], bad[1][:80]), where(m.fn))
+        else:
+            d = [k for k in r1 if r1.get(k) != r2.get(k)]
+            chk.ob("C07.model/NameMap::build", not d, "%d names are the same in both hash orders" % len(r1) if not d else
+                   "the emitted name of %s %d depends on the iteration order of a hash container (%s or %s): two compilations of the same input differ" % (d[0] + (r1[d[0]][1], r2[d[0]][1])),
+                   where(m.fn), sample={"names": len(r1), "order_dependent": len(d)})
+    except Exception as e:
+        chk.note("NameMap::build model not evaluated: %r" % (e,))
+    try:
+        import bindmodel as BM
+        bm = BM.BindModel(f)
+        o = {k: bm.obj(k) for k in ("Texture2D", "BufferAddress", "RWBufferAddress", "StructuredBuffer")}
+        decls = [("global", o["BufferAddress"], 3, False), ("global", o["Texture2D"], None, False), ("global", o["RWBufferAddress"], 1, False), ("global", o["BufferAddress"], 0, False),
+                 ("global", o["StructuredBuffer"], 3, False), ("cbuffer", 1)]
+        params = {"require_slot_type": False, "support_buffer_address": True, "metal_slot_layout": False, "static_samplers_have_slots": True}
+        a, b = bm.run(decls, 2, params, reverse=False), bm.run(decls, 2, params, reverse=True)
+        if len(a) == 3 and len(b) == 3:
+            same = (a[0], a[1]) == (b[0], b[1])
+            chk.ob("C07.model/assign_api_bindings", same, "placements and inline constant buffers are the same in both hash orders" if same else
+                   "assign_api_bindings depends on hash iteration order: %s vs %s" % (a[:2], b[:2]), where(bm.fn))
+    except Exception as e:
+        chk.note("assign_api_bindings model not evaluated: %r" % (e,))
